@@ -425,3 +425,8 @@ fn arbitrary_variant(u: &mut Unstructured, weight: &[usize]) -> Result<usize> {
     }
     Err(Error::msg("empty variant"))
 }
+
+// verification hook: Kani harnesses for the private numeric kernels live outside the repository
+#[cfg(kani)]
+#[path = "/verif/kani/incrate/parser_random.rs"]
+mod verif_kani;
